@@ -251,3 +251,21 @@ def walk_any(items):
         yield n
         if hasattr(n, "items"):
             yield from walk_any(n.items)
+
+
+def strip_redundant_parens(items):
+    """'((k o))' and '(k o)' are the same expression: collapse parenthesised groups whose only child is a parenthesised group."""
+    res = []
+    for n in items:
+        if isinstance(n, Flat):
+            inner = strip_redundant_parens(n.items)
+            while len(inner) == 1 and isinstance(inner[0], Flat):
+                inner = inner[0].items
+            res.append(Flat(inner))
+        elif isinstance(n, (Br, Cat)):
+            res.append(type(n)(strip_redundant_parens(n.items)))
+        elif isinstance(n, Ell):
+            res.append(Ell(strip_redundant_parens(n.items), n.group, n.anon))
+        else:
+            res.append(n)
+    return res
